@@ -131,6 +131,14 @@ def handle (_ : Unit) (j : Json) : R (Unit × Json) := do
     let c ← intF j "cls"
     let v ← optF asInt j "value"
     return ((), jObj [("model", jPyOut (ioniceSetPy icfg c v)), ("spec", Json.null)])
+  else if op == "ethspeed" then
+    let hi ← natF j "hi"
+    let lo ← natF j "lo"
+    if hi ≥ 65536 || lo ≥ 65536 then .error "halves are 16-bit"
+    let m := match ethSpeed ecfg hi lo with
+      | .ub => jObj [("kind", "ub")]
+      | .speed v => jObj [("kind", "speed"), ("mbps", jInt v)]
+    return ((), jObj [("model", m), ("spec", jObj [("kind", "speed"), ("mbps", jInt (Spec.nicSpeed hi lo))])])
   else if op == "iff" then
     let f ← natF j "flags"
     let names := iffNames iffLinux Gen.C17.iffMask f
